@@ -52,7 +52,12 @@ func TestC07Exhaustive(t *testing.T) {
 				// carrier 3: filter condition over two elements
 				fdoc := `[{"a":` + x + `,"b":` + y + `,"i":1},{"a":` + y + `,"b":` + x + `,"i":2}]`
 				run(t, Case{Property: "C07", Kind: "diff", Expr: "[?a " + op + " b].i", Doc: fdoc, Extra: map[string]interface{}{"cell": "filter"}})
-				n += 3
+				// carriers 4-6: the result under one and two negations (null, false and true stay distinct
+				// values there) and as an operand of the other operators
+				run(t, Case{Property: "C07", Kind: "diff", Expr: "[!(a " + op + " b), !!(a " + op + " b), (a " + op + " b) == `false`, (a " + op + " b) || 'alt', (a " + op + " b) && 'alt']", Doc: doc, Extra: map[string]interface{}{"cell": "negated"}})
+				run(t, Case{Property: "C07", Kind: "diff", Expr: "[?!(a " + op + " b)].i", Doc: fdoc, Extra: map[string]interface{}{"cell": "filter-negated"}})
+				run(t, Case{Property: "C07", Kind: "diff", Expr: "[?!(a " + op + " b) || !!(b " + op + " a)].i", Doc: fdoc, Extra: map[string]interface{}{"cell": "filter-negated-or"}})
+				n += 6
 			}
 		}
 		// unary
@@ -1309,5 +1314,48 @@ func TestC11Positions(t *testing.T) {
 	st := statsFor("C11")
 	st.mu.Lock()
 	st.Exhaustive["C11.positions"] = fmt.Sprintf("%d per-element constructs x arrays of 1..6, 17, 33 numbers with one string at every position (edges and middle for the large ones): %d cases, the error must surface in each", len(tmpls), n)
+	st.mu.Unlock()
+}
+
+
+// TestC11Triples: every ordered triple of the truth-value and iteration contexts around
+// three erroring seeds (errors that only get lost three constructs deep: a negation as the
+// left operand of || inside a filter condition, a flatten right after a projection ...).
+func TestC11Triples(t *testing.T) {
+	pick := map[string]bool{"not": true, "or-left": true, "and-left": true, "or-right": true, "and-right": true, "paren": true, "cmp-left": true, "filter-cond": true, "proj-rhs-arg": true,
+		"map-body": true, "list-member": true, "pipe-right": true, "flatten": true, "list-proj": true, "filter": true, "sub": true, "arg-not_null-2": true, "sort_by-key": true}
+	var ctxs []struct{ name, tmpl string }
+	for _, c := range strictCtx {
+		if pick[c.name] {
+			ctxs = append(ctxs, c)
+		}
+	}
+	seeds := []string{"abs(`\"a\"`)", "nosuch(@)", "`[1,2]`[::0]"}
+	shard, nshards := envInt("VERIF_SHARD", 0), envInt("VERIF_NSHARDS", 1)
+	n, k := 0, 0
+	wrap := func(tmpl, inner string) string {
+		if strings.Contains(tmpl, "&%s") || strings.Contains(tmpl, "(%s)") || strings.Contains(tmpl, ", %s") || strings.Contains(tmpl, "[?%s]") || strings.Contains(tmpl, "[%s]") || strings.Contains(tmpl, ": %s") {
+			return fill(tmpl, inner)
+		}
+		return fill(tmpl, "("+inner+")")
+	}
+	for _, s := range seeds {
+		for _, c1 := range ctxs {
+			for _, c2 := range ctxs {
+				for _, c3 := range ctxs {
+					k++
+					if k%nshards != shard {
+						continue
+					}
+					e := wrap(c3.tmpl, wrap(c2.tmpl, fill(c1.tmpl, s)))
+					run(t, Case{Property: "C11", Kind: "strict", Expr: e, Doc: `{"k":1}`, Extra: map[string]interface{}{"seed": s, "strict": false}})
+					n++
+				}
+			}
+		}
+	}
+	st := statsFor("C11")
+	st.mu.Lock()
+	st.Exhaustive["C11.triples"] = fmt.Sprintf("%d^3 ordered triples of truth-value/iteration contexts x %d seeds (shard %d/%d: %d expressions), judged by the reference model", len(ctxs), len(seeds), shard, nshards, n)
 	st.mu.Unlock()
 }
